@@ -40,7 +40,7 @@ inline void dump(const char *ev, long id, const char *desc) {
 }
 
 template <typename R>
-std::vector<R> rounding_values(ld f, u64 nrandom, u64 seed, std::false_type /*integral*/) {
+std::vector<R> rounding_values(ld f, u64 nrandom, u64 seed, std::false_type /*integral*/, ld = 0) {
     std::vector<R> v;
     const i128 lo = std::numeric_limits<R>::lowest(), hi = std::numeric_limits<R>::max();
     for (i128 x = -65536; x <= 65536; ++x) if (x >= lo && x <= hi) v.push_back((R)x);
@@ -50,14 +50,14 @@ std::vector<R> rounding_values(ld f, u64 nrandom, u64 seed, std::false_type /*in
     return v;
 }
 template <typename R>
-std::vector<R> rounding_values(ld f, u64 nrandom, u64 seed, std::true_type /*floating*/) {
+std::vector<R> rounding_values(ld f, u64 nrandom, u64 seed, std::true_type /*floating*/, ld off = 0) {
     std::vector<R> v = vfw::float_operands<R>(nrandom / 2, seed);
     vf::Rng r(seed + 9);
     // values that land on k + 1/2, k, k +- one ulp in the *target* unit
     for (u64 i = 0; i < nrandom; ++i) {
         ld k = (ld)((long long)(r.next_loguniform() >> 40)) * ((r.next() & 1) ? 1 : -1);
         ld t = k + ((r.next() % 3) == 0 ? 0.5L : (r.next() % 2 ? 0.0L : 0.25L));
-        R x = (R)(t / f);
+        R x = (R)((t - off) / f);
         v.push_back(x);
         v.push_back(std::nextafter(x, std::numeric_limits<R>::infinity()));
         v.push_back(std::nextafter(x, -std::numeric_limits<R>::infinity()));
@@ -75,13 +75,18 @@ inline bool round_ok(ld got, ld v, ld band, int mode) {
     return got >= a && got <= b && got == std::floor(got);
 }
 
-template <typename SrcU, typename R, typename DstU>
-__attribute__((noinline)) void run_rounding(long id, const char *desc, ld f, u64 nrandom, u64 seed) {
+template <bool Pt, typename U, typename R> struct RoundOperand { static auto make(R x) { return au::make_quantity<U>(x); } };
+template <typename U, typename R> struct RoundOperand<true, U, R> { static auto make(R x) { return au::QuantityPointMaker<U>{}(x); } };
+
+// Pt: the operand is a QuantityPoint, and the exact value in the rounding unit is x * f + off (off = difference of the two
+// origins, in the rounding unit)
+template <typename SrcU, typename R, typename DstU, bool Pt = false>
+__attribute__((noinline)) void run_rounding(long id, const char *desc, ld f, u64 nrandom, u64 seed, ld off = 0) {
     using W = std::conditional_t<std::is_floating_point<R>::value, R, double>;  // type the std function works in
     g_st.clear();
     vf::g_inst = id;
     static std::vector<R> vals;
-    vals = rounding_values<R>(f, nrandom, seed, std::is_floating_point<R>{});
+    vals = rounding_values<R>(f, nrandom, seed, std::is_floating_point<R>{}, off);
     static const R *pv;
     pv = vals.data();
     const ld eps = (ld)std::numeric_limits<W>::epsilon();
@@ -90,9 +95,9 @@ __attribute__((noinline)) void run_rounding(long id, const char *desc, ld f, u64
         const R x = vf::launder(pv[i]);
         { u64 b = 0; memcpy(&b, &x, sizeof(R) < 8 ? sizeof(R) : 8); vf::g_aux0 = b; }
         if (!std::isfinite((ld)x)) { g_st.skipped++; return; }
-        const ld v = (ld)x * f;
+        const ld v = (ld)x * f + off;
         if (std::fabs(v) > std::ldexp((ld)1, std::numeric_limits<W>::digits - 2)) { g_st.skipped++; return; }  // no fractional part left to round
-        auto q = au::make_quantity<SrcU>(x);
+        auto q = RoundOperand<Pt, SrcU, R>::make(x);
         W fl{}, ce{}, ro{}, fl_as{}, ce_as{}, ro_as{};
         long long ro_i = 0, fl_i = 0;
         VF_PHASE(vf::PH_OPERATION) {
@@ -101,13 +106,13 @@ __attribute__((noinline)) void run_rounding(long id, const char *desc, ld f, u64
             ro_i = au::round_in<long long>(DstU{}, q); fl_i = au::floor_as<long long>(DstU{}, q).in(DstU{});
         }
         g_st.evals += 8;
-        const ld band = 8 * eps * std::fabs(v) + 8 * eps * std::fabs((ld)x) * 0 + std::ldexp((ld)1, -60);
+        const ld band = 8 * eps * (Pt ? std::fabs((ld)x * f) + std::fabs(off) : std::fabs(v)) + std::ldexp((ld)1, -60);
         if (!round_ok((ld)fl, v, band, 0)) mismatch("floor_in", x, x, fl, (W)std::floor(v));
         if (!round_ok((ld)ce, v, band, 1)) mismatch("ceil_in", x, x, ce, (W)std::ceil(v));
         if (!round_ok((ld)ro, v, band, 2)) mismatch("round_in", x, x, ro, (W)std::round(v));
-        if (!vfw::same_value(fl_as, fl)) mismatch("floor_as", x, x, fl_as, fl);
-        if (!vfw::same_value(ce_as, ce)) mismatch("ceil_as", x, x, ce_as, ce);
-        if (!vfw::same_value(ro_as, ro)) mismatch("round_as", x, x, ro_as, ro);
+        if (Pt ? !(fl_as == fl) : !vfw::same_value(fl_as, fl)) mismatch("floor_as", x, x, fl_as, fl);  // (a point's .in(u) adds the zero origin difference: -0.0 + 0 is +0.0)
+        if (Pt ? !(ce_as == ce) : !vfw::same_value(ce_as, ce)) mismatch("ceil_as", x, x, ce_as, ce);  // (a point's .in(u) adds the zero origin difference: -0.0 + 0 is +0.0)
+        if (Pt ? !(ro_as == ro) : !vfw::same_value(ro_as, ro)) mismatch("round_as", x, x, ro_as, ro);  // (a point's .in(u) adds the zero origin difference: -0.0 + 0 is +0.0)
         if ((ld)ro_i != (ld)ro) mismatch("round_in<T>", x, x, ro_i, (long long)ro);
         if ((ld)fl_i != (ld)fl) mismatch("floor_as<T>", x, x, fl_i, (long long)fl);
         // ordering between the three
